@@ -23,10 +23,11 @@ type Adversary struct {
 	own       []*interfaces.ConsensusRawMessage
 	pad       bool // next PREPARE / COMMIT / VIEW_CHANGE headers get trailing bytes
 	padSlack  bool // ... or (block references only) non-zero bytes in the alignment slack, same length
+	planned   map[string]*FakeBlock // (height, view) -> the block a Byzantine leader announced early by its own PREPARE
 }
 
 func NewAdversary(net *Net) *Adversary {
-	a := &Adversary{net: net, km: &FakeKeyManager{w: net.w}, BadBlocks: map[uint64]bool{}}
+	a := &Adversary{net: net, km: &FakeKeyManager{w: net.w}, BadBlocks: map[uint64]bool{}, planned: map[string]*FakeBlock{}}
 	for _, m := range net.members {
 		if net.byz[string(m.Id)] {
 			a.byzIds = append(a.byzIds, m.Id)
@@ -322,7 +323,7 @@ func (a *Adversary) act() {
 		return
 	}
 	byz := a.byzIds[r.Intn(len(a.byzIds))]
-	switch r.Intn(25) {
+	switch r.Intn(28) {
 	case 0: // replay old traffic
 		if len(net.seen) > 0 {
 			s := net.seen[r.Intn(len(net.seen))]
@@ -399,7 +400,11 @@ func (a *Adversary) act() {
 				votes := a.genuineVotes(h, nv, true, nil)
 				hash, blk, _ := a.highestSeenLock(h, nv)
 				if hash == nil {
-					blk = a.newBlock(h, false)
+					if pb := a.planned[fmt.Sprintf("%d|%d", h, nv)]; pb != nil {
+						blk = pb // the block this leader announced by its early PREPARE (case 26)
+					} else {
+						blk = a.newBlock(h, false)
+					}
 					hash = blockHash(blk)
 				}
 				if blk != nil {
@@ -656,6 +661,65 @@ func (a *Adversary) act() {
 		}
 	case 23: // NEW_VIEW by the book (genuine votes, genuine highest proof, proposal signed over the proven hash) but with ANOTHER block body attached
 		a.nvWrongBlock(h, v)
+	case 24: // a COMMIT with a genuine header signature whose seed share is a copy of another member's share seen on the wire
+		for _, s := range a.seen() {
+			if m, ok := s.m.(*interfaces.CommitMessage); ok && uint64(m.BlockHeight()) == h && uint64(m.View()) == v && string(m.SenderMemberId()) != string(byz) {
+				hd := m.Content().SignedHeader()
+				ref := a.refB(protocol.LEAN_HELIX_COMMIT, inst, h, v, hd.BlockHash())
+				cb := &protocol.CommitContentBuilder{SignedHeader: ref, Sender: a.senderB(byz, h, ref.Build().Raw()), Share: m.Content().Share()}
+				a.toAll(interfaces.NewCommitMessage(cb.Build()).ToConsensusRawMessage(), "commit-with-another-members-share")
+				break
+			}
+		}
+	case 25: // NEW_VIEW whose votes "of" correct members have new content but the signature bytes of votes they cast for another view
+		for nv := v; nv <= v+1; nv++ {
+			if nv > 0 && a.isByz(a.leaderOf(nv)) {
+				ld := a.leaderOf(nv)
+				votes := a.genuineVotes(h, nv, true, nil)
+				have := map[string]bool{}
+				for _, c := range votes {
+					have[string(c.Sender.MemberId)] = true
+				}
+				for _, s := range a.seen() {
+					var cs []*protocol.ViewChangeMessageContent
+					switch m := s.m.(type) {
+					case *interfaces.ViewChangeMessage:
+						if uint64(m.BlockHeight()) == h && uint64(m.View()) != nv {
+							cs = append(cs, m.Content())
+						}
+					case *interfaces.NewViewMessage:
+						if uint64(m.BlockHeight()) == h && uint64(m.View()) != nv {
+							it := m.Content().SignedHeader().ViewChangeConfirmationsIterator()
+							for it.HasNext() {
+								cs = append(cs, it.NextViewChangeConfirmations())
+							}
+						}
+					}
+					for _, c := range cs {
+						id := c.Sender().MemberId()
+						if !have[string(id)] && !a.isByz(id) {
+							have[string(id)] = true
+							hdr := &protocol.ViewChangeHeaderBuilder{MessageType: protocol.LEAN_HELIX_VIEW_CHANGE, InstanceId: primitives.InstanceId(inst), BlockHeight: primitives.BlockHeight(h), View: primitives.View(nv)}
+							votes = append(votes, &protocol.ViewChangeMessageContentBuilder{SignedHeader: hdr, Sender: &protocol.SenderSignatureBuilder{MemberId: id, Signature: c.Sender().Signature()}})
+						}
+					}
+				}
+				b := a.newBlock(h, false)
+				pp := a.ppContent(ld, protocol.LEAN_HELIX_PREPREPARE, inst, h, nv, blockHash(b))
+				a.toAll(a.mkNV(ld, protocol.LEAN_HELIX_NEW_VIEW, inst, h, nv, votes, pp, b), "nv-votes-with-replayed-signatures")
+			}
+		}
+	case 26: // the Byzantine leader of a view not yet reached sends its own PREPARE for that view (for the block it will propose by the book, case 6)
+		for nv := v + 1; nv <= v+2; nv++ {
+			if a.isByz(a.leaderOf(nv)) {
+				k := fmt.Sprintf("%d|%d", h, nv)
+				if a.planned[k] == nil {
+					a.planned[k] = a.newBlock(h, false)
+				}
+				a.toAll(a.mkP(a.leaderOf(nv), protocol.LEAN_HELIX_PREPARE, inst, h, nv, blockHash(a.planned[k])), "leader-prepare-for-own-future-view")
+				break
+			}
+		}
 	default: // mutate one aspect of a message seen on the wire and deliver it
 		a.mutate(target)
 	}
